@@ -18,6 +18,14 @@ if str(REPO) not in sys.path:
 sys.dont_write_bytecode = True
 
 
+def fmap(x):
+    """TLC's ToJson renders a function on 1..n as an array and on any other domain as an object
+    with string keys: normalise both to {int: value}."""
+    if isinstance(x, list):
+        return {i + 1: v for i, v in enumerate(x)}
+    return {int(k): v for k, v in x.items()}
+
+
 def jdump(o):
     return json.dumps(o, sort_keys=True, default=_default)
 
